@@ -128,3 +128,7 @@ mod tests {
         assert_eq!(x.capacity(), 10);
     }
 }
+
+#[cfg(futures_buffered_verif)]
+#[path = "/verif/hooks/join_all.rs"]
+mod verif_hooks;
